@@ -466,6 +466,11 @@ def check_c15(tier, seed, replay=None, selftest=False):
             if tier != "quick":
                 bs += [gen_hash.longlane_behaviour(rng, alg, fam, a, b, drain=True) for a, b in rng.sample(pairs, 2)]
             jobs.append(hash_job("c15-longlane-%s-%s" % (alg, fam), bs))
+    # the running total is per message: contexts abandoned mid-stream and restarted, reused after completion, refused in between
+    for alg in gen_hash.FAMS:
+        for fam in gen_hash.all_families(alg):
+            jobs.append(hash_job("c15-reuse-%s-%s" % (alg, fam), [gen_hash.class_behaviour(rng, alg, fam, "reuse") for _ in range(2)]
+                                 + [gen_hash.random_behaviour(rng, alg, fam, with_rejects=0.3)]))
     for alg in gen_hash.FAMS:
         a = rng.randrange(gen_hash.DISP_LANES[alg])
         jobs.append(hash_job("c15-longlane-%s-isal" % alg, [gen_hash.longlane_behaviour(rng, alg, "isal", a, (a + d) % gen_hash.DISP_LANES[alg])
@@ -670,6 +675,10 @@ def check_c17(tier, seed, replay=None, selftest=False):
         chk.drift.append("status function accesses the shared word in a different shape than SelfTest models: %s" % json.dumps(shapes))
     if replay:
         lines = [x for x in open(replay).read().splitlines() if x and not x.startswith("#")]
+        if "self generic" in open(replay).read():
+            gobj = build.compile_repo_file("fips/self_tests_generic.c", ["-DFIPS_MODE", "-Disal_self_tests=isal_self_tests_generic",
+                                           "-D_aes_self_tests=gen_aes_self_tests", "-D_sha_self_tests=gen_sha_self_tests"], "selfgen")
+            exe = build.build_driver("selfgen", SELF_SRCS, variant="fips", wraps=SELF_WRAPS, extra=[gobj])
         outs = run_jobs([{"name": "replay", "behaviours": [[mapcmd] + [x for x in lines if not x.startswith("selfmap")]]}], exe, "TraceSelfTest")
         collect(chk, outs, props, marker="SReset")
         chk.cov.update({"states": 1, "transitions": 1, "traces_validated_against_impl": 1, "samples": [replay]})
@@ -701,6 +710,18 @@ def check_c17(tier, seed, replay=None, selftest=False):
             for i in range(nj)]
     outs = run_jobs(jobs, exe, "TraceSelfTest")
     nb, ne = collect(chk, outs, props | {"SPEC"}, marker="Mark")
+    # the portable implementation of the protocol (fips/self_tests_generic.c, C11 atomics, non-x86 builds): compiled on its own
+    # and driven by free-running behaviours; its status word is a function-local static, so one process per behaviour
+    gobj = build.compile_repo_file("fips/self_tests_generic.c", ["-DFIPS_MODE", "-Disal_self_tests=isal_self_tests_generic",
+                                   "-D_aes_self_tests=gen_aes_self_tests", "-D_sha_self_tests=gen_sha_self_tests"], "selfgen")
+    gexe = build.build_driver("selfgen", SELF_SRCS, variant="fips", wraps=SELF_WRAPS, extra=[gobj])
+    gb = ["selfstall 4 800 0 0 G", "selfstall 4 500 1 0 G", "selfstall 4 500 0 -1 G", "selfstall 5 500 1 0 G 0 0", "selfstall 3 300 0 0 G",
+          "selfstall 8 600 0 0 G", "selfstall 2 300 0 -1 G 0 0", "selfstall 6 400 2 0 G"]
+    gjobs = [{"name": "selfgen-%d" % i, "behaviours": [[b]], "driver": "self generic"} for i, b in enumerate(gb)]
+    gouts = run_jobs(gjobs, gexe, "TraceSelfTest")
+    b2, e2 = collect(chk, gouts, props | {"SPEC"}, marker="Mark")
+    nb, ne = nb + b2, ne + e2
+    chk.cov["generic_implementation_behaviours"] = gb
     _finish_traces(chk, jobs, outs, nb, ne,
                    "one behaviour = N (2..4) threads x 1..2 calls of isal_self_tests()/isal_aes_keyexp_128() executed under a schedule that "
                    "says which thread performs its next access to the status word (instruction-granular control through the trap flag, no "
